@@ -5,13 +5,13 @@ every raw-HTML placeholder is a block of its own (`NoCtlF.OwnBlock`, `Spec/F/Own
 
 * `Bw wl`  ordinary blocks: b1's class — characters of the domain (no STX/ETX), none of the three adjacencies, with
            wikilinks no `[` before a blank;
-* `Tw wl`  strings of the tree: the same facts over the domain characters plus STX/ETX (`DomB`), and `WF false 0`
+* `Tw wl`  strings of the tree: the same facts over the domain characters plus STX/ETX (`DomA`), and `WF false 0`
            (ordinary characters and LIVE foreign tokens only);
 * `Rw wl`  elements of a block list: `Bw wl` or one placeholder block `("\n")? STX wzxhzdk:n ETX ("\n")?`, `n < HtmlBound.h`.
 
-`block_stage_own`: for `OwnBlock HtmlBound.h text`, `DomB text`, `Adj3 text`, `Qw wl text`, `0 < tab`, the tree of
+`block_stage_own`: for `OwnBlock HtmlBound.h text`, `DomA text`, `Adj3 text`, `Qw wl text`, `0 < tab`, the tree of
 `parseDocumentXT tables xc tab text` consists of F-`WNodeB 0` elements (+ `QN wl`, only `code` elements have an atomic
-text, non-atomic texts are `WF false 0`), and the log satisfies b1's `LogC pDom (Bw wl)`: reference ids/urls/titles,
+text, non-atomic texts are `WF false 0`), and the log satisfies b1's `LogC pDomA (Bw wl)`: reference ids/urls/titles,
 footnote ids and bodies, abbreviations and their titles hold no STX/ETX at all.
 Core Lean only.
 -/
@@ -21,6 +21,7 @@ import MdVerif.Lemmas.F.PlaceholdersPat
 import MdVerif.Lemmas.F.PlaceholdersBBt
 import MdVerif.Spec.F.OwnBlock
 import MdVerif.Spec.F.NoCtlB
+import MdVerif.Lemmas.F.PlaceholdersAmpBlock
 
 namespace MdVerif.NoCtlXF.XT
 variable [MdVerif.NoCtlF.HtmlBound]
@@ -30,14 +31,15 @@ open MdVerif.NoCtl (STX ETX NoCtl DomB Adj3 NoPair NoAdj domCharB Blk.AllC)
 open MdVerif.NoCtl.BlkB (PL pl_cons pl_one pl_nil)
 open MdVerif.NoCtl.BlkX (TX LogC XInv)
 open MdVerif.NoCtl.BlkXT
-open MdVerif.NoCtlF (HtmlBound nn NlOpt BeforeTok AfterTok OwnBlock TokBlock)
-open MdVerif.NoCtlX (Qw QN pDom)
+open MdVerif.NoCtlF (HtmlBound nn NlOpt BeforeTok AfterTok OwnBlock TokBlock DomA domCharA)
+open MdVerif.NoCtlX (Qw QN)
+open MdVerif.NoCtlXF (pDomA allC_domA strDomX_adj3qA)
 
 /-- ordinary blocks: b1's class (`= PW wl` of `Lemmas/F/PlaceholdersXFn.lean`) -/
-abbrev Bw (wl : Bool) : Str → Prop := fun s => (NoCtl.Blk.AllC pDom s ∧ Adj3 s) ∧ Qw wl s
+abbrev Bw (wl : Bool) : Str → Prop := fun s => (NoCtl.Blk.AllC pDomA s ∧ Adj3 s) ∧ Qw wl s
 
 /-- strings of the tree: domain characters and live foreign tokens -/
-def Tw (wl : Bool) (s : Str) : Prop := (DomB s ∧ Adj3 s ∧ NoCtlF.WF false 0 s) ∧ Qw wl s
+def Tw (wl : Bool) (s : Str) : Prop := (DomA s ∧ Adj3 s ∧ NoCtlF.WF false 0 s) ∧ Qw wl s
 
 /-- the elements of a block list: an ordinary block or one live placeholder block -/
 def Rw (wl : Bool) (s : Str) : Prop := Bw wl s ∨ TokBlock HtmlBound.h s
@@ -114,12 +116,8 @@ theorem tw_tokBlock (wl : Bool) {x : Str} (h : TokBlock HtmlBound.h x) : Tw wl x
     tokBlock_not_mem h h0 h1 h2 h3
   refine ⟨⟨?_, ⟨?_, ?_, ?_⟩, ?_⟩, fun _ => ?_⟩
   · intro c hc
-    cases hd : domCharB c with
-    | true => rfl
-    | false =>
-      exfalso
-      simp only [domCharB, Bool.and_eq_false_iff, bne_eq_false_iff_eq] at hd
-      rcases hd with e | e <;> subst e <;> exact hno (by decide) (by decide) (by decide) (by decide) hc
+    refine NoCtlF.domCharA_of_ne ?_ ?_ <;> rintro rfl <;>
+      exact hno (by decide) (by decide) (by decide) (by decide) hc
   · exact NoCtl.noPair_of_not_mem_left (hno (by decide) (by decide) (by decide) (by decide))
   · exact NoCtl.noPair_of_not_mem_left (hno (by decide) (by decide) (by decide) (by decide))
   · exact NoCtl.noPair_of_not_mem_left (hno (by decide) (by decide) (by decide) (by decide))
@@ -130,7 +128,7 @@ theorem tw_tokBlock (wl : Bool) {x : Str} (h : TokBlock HtmlBound.h x) : Tw wl x
 /-! ### the instance -/
 
 theorem tw_of_bw {wl : Bool} {s : Str} (h : Bw wl s) : Tw wl s := by
-  have := NoCtl.allC_domB h.1.1
+  have := allC_domA h.1.1
   exact ⟨⟨this.2, h.1.2, NoCtlF.WF.of_noCtl this.1⟩, h.2⟩
 
 theorem Tw.infix_of_wf {wl : Bool} {s t : Str} (h : Tw wl s) (ht : t <:+: s) (hw : NoCtlF.WF false 0 t) : Tw wl t :=
@@ -143,7 +141,7 @@ theorem tw_join {wl : Bool} {a b : Str} (ha : Tw wl a) (hb : Tw wl b) : Tw wl (a
   simp only [List.mem_append, List.mem_cons] at hc
   rcases hc with hc | rfl | hc
   · exact ha.1.1 c hc
-  · decide
+  · exact NoCtlF.domCharA_of_ne (by decide) (by decide)
   · exact hb.1.1 c hc
 
 /-- a member of a joined list, with what stands on either side -/
@@ -186,8 +184,8 @@ theorem tw_lines {wl : Bool} {s : Str} (h : Tw wl s) : PL (Tw wl) (lines s) := b
   exact h.infix_of_wf ⟨u, v, e'.symm⟩ h2
 
 /-- **the three string classes of the block stage with raw-HTML placeholders** -/
-theorem dom2_w (wl : Bool) : Dom2 pDom NoCtl.Blk.okc (Bw wl) (Tw wl) (Rw wl) where
-  b := NoCtlX.strDomX_adj3q wl
+theorem dom2_w (wl : Bool) : Dom2 pDomA NoCtl.Blk.okc (Bw wl) (Tw wl) (Rw wl) where
+  b := strDomX_adj3qA wl
   sub := fun _ h => tw_of_bw h
   rOf := fun _ h => .inl h
   rSp := by
@@ -208,12 +206,12 @@ theorem lstrip_of_head {c : Char} {r : Str} (h : isSpace c = false) : Py.lstrip 
   simp [Py.lstrip, lstripP, h]
 
 theorem tok_step (wl : Bool) {tables : Bool} {cfg : BlockExt.XCfg} {tab : Nat} (htab : 0 < tab) {pb : Block.PB}
-    (_hpb : PresT pDom NoCtl.Blk.okc (Bw wl) (Tw wl) (Rw wl) pb) {state : List Block.BState} {refs : Block.Refs}
+    (_hpb : PresT pDomA NoCtl.Blk.okc (Bw wl) (Tw wl) (Rw wl) pb) {state : List Block.BState} {refs : Block.Refs}
     {parent : Node} {b : Str} {rest : List Str} {r : Node × Block.Refs × List Str}
-    (hP : TX pDom NoCtl.Blk.okc (Tw wl) parent) (hA : parent.textAtomic = false) (hR : LogC pDom (Bw wl) refs)
+    (hP : TX pDomA NoCtl.Blk.okc (Tw wl) parent) (hA : parent.textAtomic = false) (hR : LogC pDomA (Bw wl) refs)
     (hb : TokBlock HtmlBound.h b) (hrest : PL (Rw wl) rest)
     (hr : BlockExt.dispatchXT tables cfg tab pb state refs parent b rest = some r) :
-    ResT pDom NoCtl.Blk.okc (Bw wl) (Tw wl) (Rw wl) r := by
+    ResT pDomA NoCtl.Blk.okc (Bw wl) (Tw wl) (Rw wl) r := by
   have hbT := tw_tokBlock wl hb
   obtain ⟨n, a, e, hn, ha, he, rfl⟩ := hb
   obtain ⟨w, hw⟩ := placeholder_cons n
@@ -239,7 +237,7 @@ theorem tok_step (wl : Bool) {tables : Bool} {cfg : BlockExt.XCfg} {tab : Nat} (
 
 /-- **the loop of the extended block parser keeps the invariant on lists of ordinary blocks and placeholder blocks** -/
 theorem parseBlocksXT_pres_w (wl : Bool) (tables : Bool) (cfg : BlockExt.XCfg) {tab : Nat} (htab : 0 < tab) (f : Nat) :
-    PresT pDom NoCtl.Blk.okc (Bw wl) (Tw wl) (Rw wl) (BlockExt.parseBlocksXT tables cfg tab f) :=
+    PresT pDomA NoCtl.Blk.okc (Bw wl) (Tw wl) (Rw wl) (BlockExt.parseBlocksXT tables cfg tab f) :=
   parseBlocksXT_pres_of tables cfg tab (fun pb hpb state refs parent b rest r hP hA hR hb hrest hd => by
     rcases hb with hb | hb
     · exact dispatchXT_t (dom2_w wl) hpb hP hA hR hb hrest hd
@@ -366,7 +364,7 @@ theorem nl_not_mem_placeholder (n : Nat) : '\n' ∉ Fenced.placeholder n :=
 
 /-- **a block of a text in which every placeholder is a block of its own is an ordinary block or a placeholder block** -/
 theorem rw_of_piece (wl : Bool) {s x u v : Str} (e : s = u ++ x ++ v) (hu : u = [] ∨ ∃ u', u = u' ++ nn)
-    (hv : v = [] ∨ ∃ v', v = nn ++ v') (hx : ¬ nn <:+: x) (ho : OwnBlock HtmlBound.h s) (hd : DomB s) (ha : Adj3 s)
+    (hv : v = [] ∨ ∃ v', v = nn ++ v') (hx : ¬ nn <:+: x) (ho : OwnBlock HtmlBound.h s) (hd : DomA s) (ha : Adj3 s)
     (hq : Qw wl s) : Rw wl x := by
   have hinf : x <:+: s := ⟨u, v, e.symm⟩
   by_cases hs : STX ∈ x
@@ -434,11 +432,11 @@ theorem rw_of_piece (wl : Bool) {s x u v : Str} (e : s = u ++ x ++ v) (hu : u = 
     have h1 := hd c (hinf.subset hcm)
     have h2 : c ≠ STX := fun h => hs (h ▸ hcm)
     have h3 : c ≠ ETX := fun h => he (h ▸ hcm)
-    simp only [pDom, NoCtl.Blk.okc, Bool.and_eq_true, bne_iff_ne, ne_eq]
-    exact ⟨⟨h2, h3⟩, h1⟩
+    simp only [pDomA, NoCtl.Blk.okc, Bool.and_eq_true, bne_iff_ne, ne_eq]
+    exact ⟨⟨h2, h3⟩, by simpa using h1⟩
 
 /-- **the block list of a text in which every placeholder is a block of its own** -/
-theorem pl_splitS_own (wl : Bool) {s : Str} (ho : OwnBlock HtmlBound.h s) (hd : DomB s) (ha : Adj3 s) (hq : Qw wl s) :
+theorem pl_splitS_own (wl : Bool) {s : Str} (ho : OwnBlock HtmlBound.h s) (hd : DomA s) (ha : Adj3 s) (hq : Qw wl s) :
     PL (Rw wl) (splitS nn s) := by
   intro x hx
   obtain ⟨u, v, e, hu, hv⟩ := mem_join_decomp (sep := nn) hx
@@ -519,10 +517,10 @@ theorem strT_of_tw {wl : Bool} {s : Str} (h : Tw wl s) : NoCtlF.StrT 0 (some s) 
 theorem strT_of_tw_opt {wl : Bool} {t : Option Str} (h : Tw wl (t.getD [])) : NoCtlF.StrT 0 t :=
   ⟨NoCtlF.WF.mono (Nat.le_refl _) (by simp) h.1.2.2, h.1.1, h.1.2.1, NoCtlF.btSafe_of_wf h.1.2.2⟩
 
-theorem blkOut_of_xinv {wl : Bool} {n : Node} (h : XInv pDom NoCtl.Blk.okc (Tw wl) n) : BlkOut wl n := by
+theorem blkOut_of_xinv {wl : Bool} {n : Node} (h : XInv pDomA NoCtl.Blk.okc (Tw wl) n) : BlkOut wl n := by
   obtain ⟨hn, _⟩ := h
   have ht := hn.text
-  refine ⟨⟨hn.tag, NoCtlX.attrsNoCtl_of_attrsC hn.attrs, hn.tailAt, strT_of_tw_opt hn.tail, ?_, ?_⟩,
+  refine ⟨⟨hn.tag, NoCtlXF.attrsNoCtl_of_attrsCA hn.attrs, hn.tailAt, strT_of_tw_opt hn.tail, ?_, ?_⟩,
     ⟨fun ha => (hn.textP ha).2, hn.tail.2⟩, ?_, ?_⟩
   · split
     · next hat =>
@@ -545,10 +543,10 @@ theorem blkOut_of_xinv {wl : Bool} {n : Node} (h : XInv pDom NoCtl.Blk.okc (Tw w
     satisfies the invariant -/
 theorem parseBlocksXT_own (wl : Bool) (tables : Bool) (cfg : BlockExt.XCfg) {tab : Nat} (htab : 0 < tab) (f : Nat)
     {state : List Block.BState} {log : Block.Refs} {parent : Node} {blocks : List Str} {r : Node × Block.Refs}
-    (hP : parent.Forall (XInv pDom NoCtl.Blk.okc (Tw wl))) (hA : parent.textAtomic = false)
-    (hL : LogC pDom (Bw wl) log) (hB : ∀ b ∈ blocks, Rw wl b)
+    (hP : parent.Forall (XInv pDomA NoCtl.Blk.okc (Tw wl))) (hA : parent.textAtomic = false)
+    (hL : LogC pDomA (Bw wl) log) (hB : ∀ b ∈ blocks, Rw wl b)
     (hr : BlockExt.parseBlocksXT tables cfg tab f state log parent blocks = some r) :
-    r.1.Forall (XInv pDom NoCtl.Blk.okc (Tw wl)) ∧ r.1.textAtomic = false ∧ LogC pDom (Bw wl) r.2 :=
+    r.1.Forall (XInv pDomA NoCtl.Blk.okc (Tw wl)) ∧ r.1.textAtomic = false ∧ LogC pDomA (Bw wl) r.2 :=
   parseBlocksXT_pres_w wl tables cfg htab f _ _ _ _ _ hP hA hL hB hr
 
 /-- **the block stage with fenced_code**: on a text in which every STX/ETX belongs to a live raw-HTML placeholder that is a
@@ -557,23 +555,23 @@ theorem parseBlocksXT_own (wl : Bool) (tables : Bool) (cfg : BlockExt.XCfg) {tab
     def_list, footnotes, abbr, sane_lists, tables; `tab_length ≥ 1` — builds a tree of `BlkOut` elements: literal tags,
     attributes free of STX/ETX, atomic (`code`) texts free of STX/ETX, tails and non-atomic texts made of domain
     characters and WHOLE live placeholders; and every string of the log (reference ids, urls, titles; footnote ids and
-    bodies; abbreviations and titles) is free of STX/ETX, footnote bodies are ordinary blocks (`LogC pDom (Bw wl)`:
+    bodies; abbreviations and titles) is free of STX/ETX, footnote bodies are ordinary blocks (`LogC pDomA (Bw wl)`:
     b1's invariant, unchanged). -/
 theorem block_stage_own (wl : Bool) (tables : Bool) (xc : BlockExt.XCfg) {tab : Nat} (htab : 0 < tab) {text : Str}
-    (ho : OwnBlock HtmlBound.h text) (hd : DomB text) (ha : Adj3 text) (hq : Qw wl text)
+    (ho : OwnBlock HtmlBound.h text) (hd : DomA text) (ha : Adj3 text) (hq : Qw wl text)
     {root : Node} {log : Block.Refs} (hr : BlockExt.parseDocumentXT tables xc tab text = some (root, log)) :
-    root.Forall (BlkOut wl) ∧ LogC pDom (Bw wl) log := by
+    root.Forall (BlkOut wl) ∧ LogC pDomA (Bw wl) log := by
   obtain ⟨o1, _, o3⟩ := parseBlocksXT_pres_w wl tables xc htab _ _ _ _ _ _
     (NoCtl.BlkX.tx_el (dom2_w wl).tnil "div" (by decide)) rfl NoCtl.BlkX.logC_nil (pl_splitS_own wl ho hd ha hq) hr
   exact ⟨NoCtl.Blk.forall_mono (fun _ hn => blkOut_of_xinv hn) root o1, o3⟩
 
 /-- the same for a chunk parsed on an empty surrogate `div` with a given log -/
 theorem block_chunk_own (wl : Bool) (tables : Bool) (xc : BlockExt.XCfg) {tab : Nat} (htab : 0 < tab) (f : Nat)
-    {log : Block.Refs} (hl : LogC pDom (Bw wl) log) {text : Str}
-    (ho : OwnBlock HtmlBound.h text) (hd : DomB text) (ha : Adj3 text) (hq : Qw wl text)
+    {log : Block.Refs} (hl : LogC pDomA (Bw wl) log) {text : Str}
+    (ho : OwnBlock HtmlBound.h text) (hd : DomA text) (ha : Adj3 text) (hq : Qw wl text)
     {root : Node} {log' : Block.Refs}
     (hr : Block.parseChunk (BlockExt.parseBlocksXT tables xc tab f) [] log (Node.el "div") text = some (root, log')) :
-    root.Forall (BlkOut wl) ∧ LogC pDom (Bw wl) log' := by
+    root.Forall (BlkOut wl) ∧ LogC pDomA (Bw wl) log' := by
   obtain ⟨o1, _, o3⟩ := parseBlocksXT_pres_w wl tables xc htab f _ _ _ _ _
     (NoCtl.BlkX.tx_el (dom2_w wl).tnil "div" (by decide)) rfl hl (pl_splitS_own wl ho hd ha hq) hr
   exact ⟨NoCtl.Blk.forall_mono (fun _ hn => blkOut_of_xinv hn) root o1, o3⟩
